@@ -37,28 +37,46 @@ pub(crate) mod verif_noise {
         ok
     }
     // ---- SHA-256 -----------------------------------------------------------------------------
+    // one table per call index, with the input length the X pattern gives that call (36, 64, 64, 80, 80): every copy
+    // has a concrete length and a concrete destination (symbolic-length copies into an indexed table exhaust memory)
     pub const NSHA: usize = 5;
-    pub static mut SHA_IN: [[u8; 80]; NSHA] = [[0; 80]; NSHA];
-    pub static mut SHA_LEN: [usize; NSHA] = [0; NSHA];
+    pub static mut SHA_IN0: [u8; 36] = [0; 36];
+    pub static mut SHA_IN1: [u8; 64] = [0; 64];
+    pub static mut SHA_IN2: [u8; 64] = [0; 64];
+    pub static mut SHA_IN3: [u8; 80] = [0; 80];
+    pub static mut SHA_IN4: [u8; 80] = [0; 80];
     pub static mut SHA_OUT: [[u8; 32]; NSHA] = [[0; 32]; NSHA];
     pub static mut SHA_REC: usize = 0;
     pub static mut SHA_REP: usize = 0;
+    pub static mut SHA_SHAPE_OK: bool = true; // every recorded call had the input length the pattern prescribes
     pub fn sha_model(data: &[u8]) -> Vec<u8> {
         unsafe {
             if MODE == 0 {
                 let k = SHA_REC;
-                assert!(k < NSHA && data.len() <= 80, "[C06,C05] Noise X makes exactly five hash calls per side (inputs <= 80 bytes)");
-                SHA_IN[k][..data.len()].copy_from_slice(data);
-                SHA_LEN[k] = data.len();
+                assert!(k < NSHA, "[C06,C05] Noise X makes exactly five hash calls per side");
                 let o: [u8; 32] = kani::any();
-                SHA_OUT[k] = o;
+                match k {
+                    0 => { if data.len() == 36 { SHA_IN0.copy_from_slice(data); } else { SHA_SHAPE_OK = false; } SHA_OUT[0] = o; }
+                    1 => { if data.len() == 64 { SHA_IN1.copy_from_slice(data); } else { SHA_SHAPE_OK = false; } SHA_OUT[1] = o; }
+                    2 => { if data.len() == 64 { SHA_IN2.copy_from_slice(data); } else { SHA_SHAPE_OK = false; } SHA_OUT[2] = o; }
+                    3 => { if data.len() == 80 { SHA_IN3.copy_from_slice(data); } else { SHA_SHAPE_OK = false; } SHA_OUT[3] = o; }
+                    _ => { if data.len() == 80 { SHA_IN4.copy_from_slice(data); } else { SHA_SHAPE_OK = false; } SHA_OUT[4] = o; }
+                }
                 SHA_REC += 1;
                 o.to_vec()
             } else if MODE == 1 {
                 let k = SHA_REP;
                 SHA_REP += 1;
-                if k < SHA_REC && data.len() == SHA_LEN[k] && eq(data, &SHA_IN[k], SHA_LEN[k]) {
-                    SHA_OUT[k].to_vec()
+                let same = match k {
+                    0 => data.len() == 36 && eq(data, &SHA_IN0, 36),
+                    1 => data.len() == 64 && eq(data, &SHA_IN1, 64),
+                    2 => data.len() == 64 && eq(data, &SHA_IN2, 64),
+                    3 => data.len() == 80 && eq(data, &SHA_IN3, 80),
+                    4 => data.len() == 80 && eq(data, &SHA_IN4, 80),
+                    _ => false,
+                };
+                if k < SHA_REC && same {
+                    match k { 0 => SHA_OUT[0].to_vec(), 1 => SHA_OUT[1].to_vec(), 2 => SHA_OUT[2].to_vec(), 3 => SHA_OUT[3].to_vec(), _ => SHA_OUT[4].to_vec() }
                 } else {
                     DIVERGED = true;
                     let o: [u8; 32] = kani::any();
@@ -84,20 +102,26 @@ pub(crate) mod verif_noise {
         unsafe {
             if MODE == 0 {
                 let k = HK_REC;
-                assert!(k < NHK && ck.len() == 32 && ikm.len() <= 32, "[C06,C05] Noise X makes exactly three HKDF calls per side (two MixKey, one Split)");
-                HK_CK[k].copy_from_slice(ck);
-                HK_IKM[k][..ikm.len()].copy_from_slice(ikm);
-                HK_IKMLEN[k] = ikm.len();
+                assert!(k < NHK && ck.len() == 32 && (ikm.len() == 32 || ikm.len() == 0), "[C06,C05] Noise X makes exactly three HKDF calls per side (two MixKey on 32-byte DH results, one Split on empty input)");
                 let (a, b): ([u8; 32], [u8; 32]) = (kani::any(), kani::any());
-                HK_O1[k] = a;
-                HK_O2[k] = b;
+                match k {
+                    0 => { HK_CK[0].copy_from_slice(ck); if ikm.len() == 32 { HK_IKM[0].copy_from_slice(ikm); } HK_IKMLEN[0] = ikm.len(); HK_O1[0] = a; HK_O2[0] = b; }
+                    1 => { HK_CK[1].copy_from_slice(ck); if ikm.len() == 32 { HK_IKM[1].copy_from_slice(ikm); } HK_IKMLEN[1] = ikm.len(); HK_O1[1] = a; HK_O2[1] = b; }
+                    _ => { HK_CK[2].copy_from_slice(ck); if ikm.len() == 32 { HK_IKM[2].copy_from_slice(ikm); } HK_IKMLEN[2] = ikm.len(); HK_O1[2] = a; HK_O2[2] = b; }
+                }
                 HK_REC += 1;
                 (a.to_vec(), b.to_vec())
             } else if MODE == 1 {
                 let k = HK_REP;
                 HK_REP += 1;
-                if k < HK_REC && ck.len() == 32 && eq(ck, &HK_CK[k], 32) && ikm.len() == HK_IKMLEN[k] && eq(ikm, &HK_IKM[k], HK_IKMLEN[k]) {
-                    (HK_O1[k].to_vec(), HK_O2[k].to_vec())
+                let same = match k {
+                    0 => ck.len() == 32 && eq(ck, &HK_CK[0], 32) && ikm.len() == HK_IKMLEN[0] && (ikm.len() == 0 || eq(ikm, &HK_IKM[0], 32)),
+                    1 => ck.len() == 32 && eq(ck, &HK_CK[1], 32) && ikm.len() == HK_IKMLEN[1] && (ikm.len() == 0 || eq(ikm, &HK_IKM[1], 32)),
+                    2 => ck.len() == 32 && eq(ck, &HK_CK[2], 32) && ikm.len() == HK_IKMLEN[2] && (ikm.len() == 0 || eq(ikm, &HK_IKM[2], 32)),
+                    _ => false,
+                };
+                if k < HK_REC && same {
+                    match k { 0 => (HK_O1[0].to_vec(), HK_O2[0].to_vec()), 1 => (HK_O1[1].to_vec(), HK_O2[1].to_vec()), _ => (HK_O1[2].to_vec(), HK_O2[2].to_vec()) }
                 } else {
                     DIVERGED = true;
                     let (a, b): ([u8; 32], [u8; 32]) = (kani::any(), kani::any());
@@ -118,6 +142,7 @@ pub(crate) mod verif_noise {
     pub static mut DH_REC: usize = 0;
     pub static mut DH_REP: usize = 0;
     pub static mut DH_FAIL_AT: usize = usize::MAX; // record mode: this call reports the all-zero result
+    pub static mut DH_REFUSED: bool = false; // free mode: some DH reported the all-zero result
     // replay mode: the commuted arguments the responder must present (set by the harness)
     pub static mut DH_REP_K: [[u8; 32]; NDH] = [[0; 32]; NDH];
     pub static mut DH_REP_U: [[u8; 32]; NDH] = [[0; 32]; NDH];
@@ -146,7 +171,7 @@ pub(crate) mod verif_noise {
                     Ok(o.to_vec())
                 }
             } else {
-                if kani::any() { return Err(DhError); }
+                if kani::any() { DH_REFUSED = true; return Err(DhError); }
                 let o: [u8; 32] = kani::any();
                 Ok(o.to_vec())
             }
@@ -208,19 +233,25 @@ pub(crate) mod verif_noise {
         h[..31].copy_from_slice(name);
         h
     }
+    /// SHA call k was made on a || b (k literal at every call site)
     fn cat_eq(k: usize, a: &[u8], b: &[u8]) -> bool {
-        // SHA call k was made on a || b
-        unsafe { SHA_LEN[k] == a.len() + b.len() && eq(&SHA_IN[k], a, a.len()) && eq(&SHA_IN[k][a.len()..], b, b.len()) }
+        unsafe {
+            match k {
+                0 => a.len() == 32 && b.len() == 4 && eq(&SHA_IN0, a, 32) && eq(&SHA_IN0[32..], b, 4),
+                1 => a.len() == 32 && b.len() == 32 && eq(&SHA_IN1, a, 32) && eq(&SHA_IN1[32..], b, 32),
+                2 => a.len() == 32 && b.len() == 32 && eq(&SHA_IN2, a, 32) && eq(&SHA_IN2[32..], b, 32),
+                3 => a.len() == 32 && b.len() == 48 && eq(&SHA_IN3, a, 32) && eq(&SHA_IN3[32..], b, 48),
+                _ => a.len() == 32 && b.len() == 48 && eq(&SHA_IN4, a, 32) && eq(&SHA_IN4[32..], b, 48),
+            }
+        }
     }
 
     /// C06(B) / C05(1): the writer's trace and message are exactly what the Noise X pattern prescribes.
-    #[kani::proof]
-    #[kani::stub(crate::sha256, sha_model)]
-    #[kani::stub(crate::hkdf_noise, hkdf_model)]
-    #[kani::stub(crate::x25519, dh_model)]
-    #[kani::stub(crate::chapoly_encrypt_noise, seal_model)]
-    #[kani::unwind(6)]
-    pub fn noise_write_lockstep() {
+    /// The assertions are split over three harnesses (same run, different slice of the obligations) because the
+    /// SAT instance with all of them exceeds the memory of this machine:
+    ///   part 0: the hash chain (five MixHash inputs, handshake hash);  part 1: DH pairs and the HKDF chain;
+    ///   part 2: what is sealed under which key/nonce/AD and the layout of the 128-byte message.
+    fn noise_write(part: u8) {
         let prologue: [u8; 4] = kani::any();
         let (s_priv, s_pub, e_priv, e_pub, rs, payload): ([u8; 32], [u8; 32], [u8; 32], [u8; 32], [u8; 32], [u8; 32]) =
             (kani::any(), kani::any(), kani::any(), kani::any(), kani::any(), kani::any());
@@ -236,26 +267,53 @@ pub(crate) mod verif_noise {
         unsafe {
             assert!(SHA_REC == 5 && HK_REC == 3 && DH_REC == 2 && AE_REC == 2, "[C06,C05] Noise X: five hashes, two MixKey + Split, two DH, two AEAD");
             let z = h0();
-            assert!(cat_eq(0, &z, &prologue), "[C06,C05] h = SHA256(h0 || prologue), h0 = protocol name zero-padded to 32 bytes");
-            assert!(cat_eq(1, &SHA_OUT[0], &rs), "[C06,C05] pre-message <- s: initiator mixes the RECIPIENT's static public key");
-            assert!(eq(&w.message, &e_pub, 32), "[C06,C08] message begins with the ephemeral public key in clear");
-            assert!(cat_eq(2, &SHA_OUT[1], &e_pub), "[C06,C05] token e: MixHash(e.public)");
-            assert!(eq(&DH_K[0], &e_priv, 32) && eq(&DH_U[0], &rs, 32), "[C06,C05] token es: DH(ephemeral private, recipient static public)");
-            assert!(eq(&HK_CK[0], &z, 32) && HK_IKMLEN[0] == 32 && eq(&HK_IKM[0], &DH_OUT[0], 32), "[C06,C05] MixKey(es): HKDF(ck = h0, DH result)");
-            assert!(eq(&AE_KEY[0], &HK_O2[0], 32) && AE_NONCE[0] == 0 && eq(&AE_AD[0], &SHA_OUT[2], 32) && eq(&AE_PT[0], &s_pub, 32), "[C06,C05] token s: EncryptAndHash(sender static public) under the es key, nonce 0, AD = h");
-            assert!(eq(&w.message[32..], &AE_CT[0], 48), "[C06,C08] encrypted static key follows e");
-            assert!(cat_eq(3, &SHA_OUT[2], &AE_CT[0]), "[C06,C05] MixHash(encrypted s)");
-            assert!(eq(&DH_K[1], &s_priv, 32) && eq(&DH_U[1], &rs, 32), "[C06,C05] token ss: DH(sender static private, recipient static public)");
-            assert!(eq(&HK_CK[1], &HK_O1[0], 32) && HK_IKMLEN[1] == 32 && eq(&HK_IKM[1], &DH_OUT[1], 32), "[C06,C05] MixKey(ss): HKDF(ck from es, DH result)");
-            assert!(eq(&AE_KEY[1], &HK_O2[1], 32) && AE_NONCE[1] == 0 && eq(&AE_AD[1], &SHA_OUT[3], 32) && eq(&AE_PT[1], &payload, 32), "[C06,C05] payload: EncryptAndHash under the ss key, nonce reset to 0, AD = h");
-            assert!(w.message.len() == 128 && eq(&w.message[80..], &AE_CT[1], 48), "[C06,C08] message = e || enc(s) || enc(payload), 128 bytes");
-            assert!(cat_eq(4, &SHA_OUT[3], &AE_CT[1]), "[C06,C05] MixHash(encrypted payload)");
-            assert!(eq(&w.handshake_hash, &SHA_OUT[4], 32), "[C06,C01] handshake hash = final h");
-            assert!(eq(&HK_CK[2], &HK_O1[1], 32) && HK_IKMLEN[2] == 0, "[C06] Split(): HKDF(ck, empty)");
+            if part == 0 {
+                assert!(SHA_SHAPE_OK, "[C06,C05] hash inputs have the lengths the pattern prescribes (36, 64, 64, 80, 80)");
+                assert!(cat_eq(0, &z, &prologue), "[C06,C05] h = SHA256(h0 || prologue), h0 = protocol name zero-padded to 32 bytes");
+                assert!(cat_eq(1, &SHA_OUT[0], &rs), "[C06,C05] pre-message <- s: initiator mixes the RECIPIENT's static public key");
+                assert!(cat_eq(2, &SHA_OUT[1], &e_pub), "[C06,C05] token e: MixHash(e.public)");
+                assert!(cat_eq(3, &SHA_OUT[2], &AE_CT[0]), "[C06,C05] MixHash(encrypted s)");
+                assert!(cat_eq(4, &SHA_OUT[3], &AE_CT[1]), "[C06,C05] MixHash(encrypted payload)");
+                assert!(eq(&w.handshake_hash, &SHA_OUT[4], 32), "[C06,C01] handshake hash = final h");
+            } else if part == 1 {
+                assert!(eq(&DH_K[0], &e_priv, 32) && eq(&DH_U[0], &rs, 32), "[C06,C05] token es: DH(ephemeral private, recipient static public)");
+                assert!(eq(&HK_CK[0], &z, 32) && HK_IKMLEN[0] == 32 && eq(&HK_IKM[0], &DH_OUT[0], 32), "[C06,C05] MixKey(es): HKDF(ck = h0, DH result)");
+                assert!(eq(&DH_K[1], &s_priv, 32) && eq(&DH_U[1], &rs, 32), "[C06,C05] token ss: DH(sender static private, recipient static public)");
+                assert!(eq(&HK_CK[1], &HK_O1[0], 32) && HK_IKMLEN[1] == 32 && eq(&HK_IKM[1], &DH_OUT[1], 32), "[C06,C05] MixKey(ss): HKDF(ck from es, DH result)");
+                assert!(eq(&HK_CK[2], &HK_O1[1], 32) && HK_IKMLEN[2] == 0, "[C06] Split(): HKDF(ck, empty)");
+            } else {
+                assert!(eq(&AE_KEY[0], &HK_O2[0], 32) && AE_NONCE[0] == 0 && eq(&AE_AD[0], &SHA_OUT[2], 32) && eq(&AE_PT[0], &s_pub, 32), "[C06,C05] token s: EncryptAndHash(sender static public) under the es key, nonce 0, AD = h");
+                assert!(eq(&AE_KEY[1], &HK_O2[1], 32) && AE_NONCE[1] == 0 && eq(&AE_AD[1], &SHA_OUT[3], 32) && eq(&AE_PT[1], &payload, 32), "[C06,C05] payload: EncryptAndHash under the ss key, nonce reset to 0, AD = h");
+                assert!(w.message.len() == 128, "[C06,C08] the handshake message is 128 bytes");
+                assert!(eq(&w.message, &e_pub, 32), "[C06,C08] message begins with the ephemeral public key in clear");
+                assert!(eq(&w.message[32..], &AE_CT[0], 48), "[C06,C08] encrypted static key follows e");
+                assert!(eq(&w.message[80..], &AE_CT[1], 48), "[C06,C08] message = e || enc(s) || enc(payload)");
+                assert!(hs.get_pubkey().is_none(), "[C05] the initiator side never reports a sender key");
+            }
         }
-        assert!(hs.get_pubkey().is_none(), "[C05] the initiator side never reports a sender key");
         core::mem::forget(hs); core::mem::forget(w);
     }
+    #[kani::proof]
+    #[kani::stub(crate::sha256, sha_model)]
+    #[kani::stub(crate::hkdf_noise, hkdf_model)]
+    #[kani::stub(crate::x25519, dh_model)]
+    #[kani::stub(crate::chapoly_encrypt_noise, seal_model)]
+    #[kani::unwind(6)]
+    pub fn noise_write_lockstep_hash() { noise_write(0); }
+    #[kani::proof]
+    #[kani::stub(crate::sha256, sha_model)]
+    #[kani::stub(crate::hkdf_noise, hkdf_model)]
+    #[kani::stub(crate::x25519, dh_model)]
+    #[kani::stub(crate::chapoly_encrypt_noise, seal_model)]
+    #[kani::unwind(6)]
+    pub fn noise_write_lockstep_keys() { noise_write(1); }
+    #[kani::proof]
+    #[kani::stub(crate::sha256, sha_model)]
+    #[kani::stub(crate::hkdf_noise, hkdf_model)]
+    #[kani::stub(crate::x25519, dh_model)]
+    #[kani::stub(crate::chapoly_encrypt_noise, seal_model)]
+    #[kani::unwind(6)]
+    pub fn noise_write_lockstep_seal() { noise_write(2); }
 
     /// C01(c) / C05(1) / C06(B): the reader, given a message built exactly as the Noise X pattern prescribes (the trace
     /// noise_write_lockstep shows the writer produces), recomputes the same hashes/keys, presents the commuted DH pairs,
@@ -279,11 +337,11 @@ pub(crate) mod verif_noise {
                 (kani::any(), kani::any(), kani::any(), kani::any(), kani::any(), kani::any(), kani::any(), kani::any());
             let (c1, c2): ([u8; 48], [u8; 48]) = (kani::any(), kani::any());
             SHA_OUT = h;
-            SHA_IN[0][..32].copy_from_slice(&z); SHA_IN[0][32..36].copy_from_slice(&prologue); SHA_LEN[0] = 36;
-            SHA_IN[1][..32].copy_from_slice(&h[0]); SHA_IN[1][32..64].copy_from_slice(&rs); SHA_LEN[1] = 64;
-            SHA_IN[2][..32].copy_from_slice(&h[1]); SHA_IN[2][32..64].copy_from_slice(&e_pub); SHA_LEN[2] = 64;
-            SHA_IN[3][..32].copy_from_slice(&h[2]); SHA_IN[3][32..80].copy_from_slice(&c1); SHA_LEN[3] = 80;
-            SHA_IN[4][..32].copy_from_slice(&h[3]); SHA_IN[4][32..80].copy_from_slice(&c2); SHA_LEN[4] = 80;
+            SHA_IN0[..32].copy_from_slice(&z); SHA_IN0[32..].copy_from_slice(&prologue);
+            SHA_IN1[..32].copy_from_slice(&h[0]); SHA_IN1[32..].copy_from_slice(&rs);
+            SHA_IN2[..32].copy_from_slice(&h[1]); SHA_IN2[32..].copy_from_slice(&e_pub);
+            SHA_IN3[..32].copy_from_slice(&h[2]); SHA_IN3[32..].copy_from_slice(&c1);
+            SHA_IN4[..32].copy_from_slice(&h[3]); SHA_IN4[32..].copy_from_slice(&c2);
             SHA_REC = 5;
             DH_OUT[0] = dh0; DH_OUT[1] = dh1; DH_REC = 2;
             DH_REP_K[0] = r_priv; DH_REP_U[0] = e_pub;   // es = DH(recipient private, e)      = DH(e private, rs)
@@ -360,6 +418,8 @@ pub(crate) mod verif_noise {
         let pk = PublicKey::try_from(&r_pub[..]).unwrap();
         let r = crate::noise_decrypt(&sk, &pk, &[0x65, 0x67, 0x6b, 0x10], &msg[..len]);
         if len < 96 { assert!(r.is_err(), "[C09] a handshake message shorter than 96 bytes is rejected with an error"); }
+        if unsafe { DH_REFUSED } { assert!(r.is_err(), "[C05] a handshake whose es or ss DH yields the all-zero result (low-order ephemeral or sender key) is rejected"); }
+        kani::cover!(unsafe { DH_REFUSED } && len == 128);
         kani::cover!(len == 0);
         kani::cover!(len == 63 && r.is_err());
         kani::cover!(len == 79);
@@ -367,5 +427,67 @@ pub(crate) mod verif_noise {
         kani::cover!(len == 128 && r.is_ok());
         kani::cover!(len == 140 && r.is_err());
         core::mem::forget(r); core::mem::forget(sk); core::mem::forget(pk);
+    }
+
+    // ---- ephemeral key: where it comes from and that the public half sent belongs to the private half used ----
+    pub static mut RNG_N: usize = 0;
+    pub static mut RNG_OUT: [u8; 32] = [0; 32];
+    pub fn rng_model(len: usize) -> Vec<u8> {
+        unsafe {
+            RNG_N += 1;
+            let o: [u8; 32] = kani::any();
+            RNG_OUT = o;
+            if len == 32 { o.to_vec() } else { vec![0u8; len] }
+        }
+    }
+    pub static mut DER_N: usize = 0;
+    pub static mut DER_IN: [u8; 32] = [0; 32];
+    pub static mut DER_OUT: [u8; 32] = [0; 32];
+    pub fn derive_model(sk: &[u8]) -> Result<Vec<u8>, DhError> {
+        unsafe {
+            DER_N += 1;
+            if sk.len() == 32 { DER_IN.copy_from_slice(sk); }
+            let o: [u8; 32] = kani::any();
+            DER_OUT = o;
+            Ok(o.to_vec())
+        }
+    }
+    /// C07/C08: whatever combination of ephemeral arguments the caller passes, the 32 bytes sent in clear are the public
+    /// half of the private key actually used for `es`: either the caller's pair, or a FRESH 32-byte CSPRNG draw and its
+    /// derived public key - never anything derived from a static key.
+    #[kani::proof]
+    #[kani::stub(crate::sha256, sha_model)]
+    #[kani::stub(crate::hkdf_noise, hkdf_model)]
+    #[kani::stub(crate::x25519, dh_model)]
+    #[kani::stub(crate::chapoly_encrypt_noise, seal_model)]
+    #[kani::stub(crate::secure_random, rng_model)]
+    #[kani::stub(crate::x25519_derive_public, derive_model)]
+    #[kani::unwind(6)]
+    pub fn noise_ephemeral_consistency() {
+        let (s_priv, s_pub, e_priv, e_pub, rs, payload): ([u8; 32], [u8; 32], [u8; 32], [u8; 32], [u8; 32], [u8; 32]) =
+            (kani::any(), kani::any(), kani::any(), kani::any(), kani::any(), kani::any());
+        let (have_e, have_epk): (bool, bool) = (kani::any(), kani::any());
+        unsafe { MODE = 0; }
+        let mut hs = HandshakeState::init_x(
+            true, &[0x65, 0x67, 0x6b, 0x10],
+            PrivateKey::try_from(&s_priv[..]).unwrap(), PublicKey::try_from(&s_pub[..]).unwrap(),
+            if have_e { Some(PrivateKey::try_from(&e_priv[..]).unwrap()) } else { None },
+            if have_epk { Some(PublicKey::try_from(&e_pub[..]).unwrap()) } else { None },
+            Some(PublicKey::try_from(&rs[..]).unwrap()));
+        let w = hs.write_message(&payload);
+        assert!(w.is_ok(), "[C01] the handshake message is produced");
+        let w = w.unwrap();
+        unsafe {
+            if have_e && have_epk {
+                assert!(RNG_N == 0 && eq(&DH_K[0], &e_priv, 32) && eq(&w.message, &e_pub, 32), "[C06] a caller-supplied ephemeral pair is used as given");
+            } else {
+                assert!(RNG_N == 1, "[C07] without a complete caller-supplied pair the ephemeral private key is one fresh 32-byte CSPRNG draw");
+                assert!(eq(&DH_K[0], &RNG_OUT, 32), "[C07] ... and that draw is the private key used for es");
+                assert!(DER_N == 1 && eq(&DER_IN, &RNG_OUT, 32) && eq(&w.message, &DER_OUT, 32), "[C07,C08] the 32 bytes sent in clear are the public key derived from that fresh draw - nothing derived from a static key");
+            }
+        }
+        kani::cover!(have_e && !have_epk);
+        kani::cover!(!have_e && !have_epk);
+        core::mem::forget(hs); core::mem::forget(w);
     }
 }
